@@ -106,7 +106,7 @@ PROPS = {
              "ok_re": r"VERIF-POLICY-NEW ok capacities=(\d+)", "bad_re": r"VERIF-POLICY-NEW VIOLATION.*", "tiers": ("quick", "thorough"),
              "bound": "the REAL Policy::new (f64 arithmetic, outside Verus) for capacities 0..=4096, around every power of two up to 2^20 and a few larger ones: the capacity clauses of the Policy invariant the proof assumes (window <= max, protected below the main limit) and max_capacity within [capacity, capacity + 2]"},
             {"name": "cache_histories", "bin": "replay_c16", "crate": "replay", "tiers": ("quick", "thorough"),
-             "bound": "the real public TinyLFU, single-threaded client, both unpin strategies (in Poll mode the owner releases a pin silently for odd keys -- only the maintenance pass can find out), Piggyback maintenance plus one directed history per strategy with maintenance on the cache's own DedicatedThread (bound awaited for up to 3 s): 60 seeded random histories of 1500 operations at capacities 1..8, 12 seeded random phase histories at capacities 96/160 (above the maintenance slack, so the bound is not vacuous), directed histories (empty probation at unpin, re-pin before a stale unpin, long-lived pin, popular newcomers against pinned victims, parked entries replaced within one maintenance batch at capacities 100/200); after every phase: pinned entries readable with their latest value, removed entries gone, residents <= capacity + pinned + 74"},
+             "bound": "the real public TinyLFU, single-threaded client, both unpin strategies (in Poll mode the owner releases a pin silently for odd keys -- only the maintenance pass can find out), Piggyback maintenance plus directed histories with maintenance on the cache's own DedicatedThread (parked pins released later, per strategy; several batches of writes arriving while a pass is still dropping slow values; bound awaited for up to 3 s): 60 seeded random histories of 1500 operations at capacities 1..8, 12 seeded random phase histories at capacities 96/160 (above the maintenance slack, so the bound is not vacuous), directed histories (empty probation at unpin, re-pin before a stale unpin, long-lived pin, popular newcomers against pinned victims, parked entries replaced within one maintenance batch at capacities 100/200); after every phase: pinned entries readable with their latest value, removed entries gone, residents <= capacity + pinned + 74"},
             {"name": "lock_table_same_lock", "bin": "replay_c16_locks", "crate": "replay", "tiers": ("quick", "thorough"),
              "bound": "the REAL query_lock_manager.rs (compiled into the driver with include!; QueryID replaced by a local key type): 16 seeded histories of 1600 steps at table capacities 1/2/8/32: tasks take lock instances of a rolling window of ~400 queries (locked or not yet locked), release them, lock later; 50..450 other queries at a time push the table over capacity; whenever a task holds an instance of q every get_lock_instance(q) must return the same lock object, and once nothing is held the table holds at most capacity + 74 locks (single-threaded)"},
             {"name": "lru_conformance_depth4", "repo_crate": "storage", "package": "qbice_storage", "test": "verif_lru_conformance", "env": {"VERIF_LRU_DEPTH": 4},
